@@ -3,7 +3,7 @@ from __future__ import annotations
 import asyncio
 import sys
 from functools import partial
-from typing import Any, Callable
+from typing import Any, Callable, Optional
 
 from ..config import Config
 from ..typing import AppWrapper, ASGIReceiveEvent, ASGISendEvent, LifespanScope, LifespanState
@@ -38,6 +38,7 @@ class Lifespan:
         # required to ensure the support has been checked before
         # waiting on timeouts.
         self._started = asyncio.Event()
+        self.startup_failure: Optional[str] = None
 
     async def handle_lifespan(self) -> None:
         self._started.set()
@@ -113,6 +114,7 @@ class Lifespan:
         elif message["type"] == "lifespan.shutdown.complete":
             self.shutdown.set()
         elif message["type"] == "lifespan.startup.failed":
+            self.startup_failure = message.get("message", "")
             self.startup.set()
             raise LifespanFailureError("startup", message.get("message", ""))
         elif message["type"] == "lifespan.shutdown.failed":
